@@ -59,8 +59,16 @@ def locus_key(clause: str, loc: dict) -> str:
     return clause + " " + json.dumps({k: v for k, v in loc.items() if k != "pos"}, sort_keys=True)
 
 
+BASE_MODES = {"abs", "opt", "req"}
+ANN_MODES = {"reqdef", "optdef", "reqenum", "reqdate"}
+
+
 def is_extra(u: dict) -> bool:
-    return u["disc"]["mode"] == "multi" or any("rnul" in v["f"] for v in u["vars"])
+    return u["disc"]["mode"] == "multi" or any(set(v["f"]) - BASE_MODES for v in u["vars"])
+
+
+def is_ann(u: dict) -> bool:
+    return any(set(v["f"]) & ANN_MODES for v in u["vars"])
 
 
 _LOCK = threading.Lock()
@@ -290,7 +298,13 @@ def union_doc(u: dict, how: str, names: list[str] = NAMES, kind_enum: bool = Fal
                 props[fld] = {"type": "string"}
             if m == "rnul":
                 props[fld]["nullable"] = True
-            if m in ("req", "rnul"):
+            if m in ("reqdef", "optdef"):
+                props[fld]["default"] = "d" + fld
+            if m == "reqenum":
+                props[fld]["enum"] = ["v" + fld]
+            if m == "reqdate":
+                props[fld]["format"] = "date"
+            if m in ("req", "rnul", "reqdef", "reqenum", "reqdate"):
                 req.append(fld)
         node: dict[str, Any] = {"type": "object", "properties": props}
         if req:
@@ -343,7 +357,9 @@ def pick_generated(chk: Check, fams: dict[str, list[dict]], target: int) -> list
                 out += [("hist", d) for d in [x for x in ranked if x["u"]["disc"]["mode"] == "complete"][: max(6, target // 30)]]
         if fam == "extra":
             multi = rank([d for d in scen if d["u"]["disc"]["mode"] == "multi"])
-            nul = rank([d for d in scen if d["u"]["disc"]["mode"] == "none"])
+            nul = rank([d for d in scen if d["u"]["disc"]["mode"] == "none" and not is_ann(d["u"])])
+            ann = rank([d for d in scen if is_ann(d["u"])])
+            out += [("plain", d) for d in ann[: max(40, target // 5)]]
             out += [("multi-enum", d) for d in multi[: max(10, target // 20)]]
             out += [("multi-plain", d) for d in multi[:4]]
             out += [("plain", d) for d in nul[: max(12, target // 15)]]
@@ -443,7 +459,8 @@ def run(chk: Check) -> None:
         "canonical instance of every variant (discriminator family: with every variant's tag, i.e. also mis-tagged bodies); thorough adds "
         "4-variant unions (objects over {a,b}; mixed; discriminator family) and all three positions for every union of <=3 variants; each pair is replayed on the "
         "real converter (direct) and ~250 unions additionally through generated packages; an 'extra' family adds required-and-nullable fields "
-        "(payload value null) and non-injective discriminator mappings (two values -> one variant); history replays decode another union with "
+        "(payload value null), annotated properties (default on required / optional, inline enum, format date - what the emitted field accepts) "
+        "and non-injective discriminator mappings (two values -> one variant); history replays decode another union with "
         "an equal (property, value -> class name) table first through the same converter module (direct: same-named make_dataclass families; "
         "generated: two clients sharing one core package); the position through which the union value is reached is a dimension "
         "(generated: response root, direct field, inline array, NAMED array alias as field and as root, inline map, NAMED map alias, array of "
@@ -483,6 +500,11 @@ def run(chk: Check) -> None:
             # is exhaustive in both tiers; the thorough tier replays all of them)
             scen = [d for d in scen if len(d["u"]["vars"]) == 2 or stable_hash(ukey(d["u"]), chk.seed) % 4 == 0]
             chk.cov["exhaustive_replay"] = False
+        if fam == "extra":
+            # the annotated-property unions are replayed at ONE hash-chosen position each in the quick tier (positions are
+            # exercised by every other family), everything else as usual
+            groups.append(("extra-ann", [d for d in scen if is_ann(d["u"])], allpos if thorough else 0, False))
+            scen = [d for d in scen if not is_ann(d["u"])]
         groups.append((fam, scen, allpos, False))
     hist = [d for d in fams["disc"] if d["u"]["disc"]["mode"] == "complete" and (thorough or len(d["u"]["vars"]) == 2)]
     groups.append(("history", hist, 2, True))
